@@ -1,6 +1,6 @@
 SPECIFICATION Spec
 CONSTANTS
-  NStmts = 40000
+  NStmts = 12000
   MaxCmds = 8
   MaxTones = 24
   BadOdds = 25
